@@ -457,7 +457,53 @@ def realise_multirule(item):
         one = {"quadrature_rule": "custom", "quadrature_points": np.array([[float(c) for c in c0]]),
                "quadrature_weights": np.array([0.5])}
         form = f * inner(u, v) * dx(metadata=one) + f * g * inner(u, v) * dA
+    if item["mr"].get("samesize"):
+        # the same integrand under two different rules with the same number of points (the second is the first
+        # shrunk towards the origin): anything cached per rule *size* instead of per rule is shared wrongly
+        pts, wts = CUSTOM[cell][var % len(CUSTOM[cell])]
+        half = {"quadrature_rule": "custom",
+                "quadrature_points": np.array([[float(c / 2) for c in p_] for p_ in pts], dtype=np.float64).reshape(len(pts), td),
+                "quadrature_weights": np.array([float(w) for w in wts], dtype=np.float64)}
+        form = f * g * inner(u, v) * dA + f * g * inner(u, v) * dx(metadata=half)
+        if var % 2 == 1:
+            form = form + g * inner(grad(u), grad(v)) * dA + g * inner(grad(u), grad(v)) * dx(metadata=half)
     return {"form": form, "exact_ok": True, "case": item["mr"]}
+
+
+def realise_facet_multirule(item):
+    """Several rules meeting in one FACET integral (same subdomain): vertex scheme, a custom facet rule and the
+    default rule in every combination of two; each part has its own integrand so a rule applied to the wrong part
+    (or on the wrong sub-entity type) changes the value."""
+    ensure_repo_on_path()
+    import basix.ufl as bu
+    import ufl
+    from ufl import inner
+
+    cell, var, meas = item["fm"]["cell"], item["fm"]["variant"], item["fm"]["measure"]
+    td = TDIM[cell]
+    dom = ufl.Mesh(bu.element("Lagrange", cell, 1, shape=(td,)))
+    V = ufl.FunctionSpace(dom, make_element("P1", cell, td))
+    u, v = ufl.TrialFunction(V), ufl.TestFunction(V)
+    f = ufl.Coefficient(ufl.FunctionSpace(dom, make_element("P2", cell, td)))
+    g = ufl.Coefficient(V)
+    M = {"ds": ufl.ds, "dS": ufl.dS}[meas]
+    dV = M(scheme="vertex", degree=1)
+    dC = M(metadata=custom_md(FACET_CELL[cell], var))
+    dC2 = M(metadata=custom_md(FACET_CELL[cell], var + 1))
+    dD = M                                             # default rule: polynomial integrands on affine cells -> exact
+    r = (lambda e: e("+")) if meas == "dS" else (lambda e: e)
+    m = (lambda e: e("-")) if meas == "dS" else (lambda e: e)
+    integrands = [lambda: r(f) * inner(r(u), m(v)), lambda: m(f) * r(g) * inner(m(u), r(v)),
+                  lambda: r(g) * inner(r(u), r(v)), lambda: m(g) * inner(m(u), m(v))]
+    if (var // 6) % 2:
+        # UFL orders the integrals of one subdomain by their integrands, so which rule comes first depends on them:
+        # every combination of rules is built with both assignments of integrands to rules
+        integrands.reverse()
+    measures = {"V": dV, "C": dC, "C2": dC2, "D": dD}
+    parts = {k: (lambda k=k, i=i: integrands[i]() * measures[k]) for i, k in enumerate(("V", "C", "C2", "D"))}
+    combos = [("V", "C"), ("D", "V"), ("C", "D"), ("V", "C", "D"), ("C", "C2"), ("V", "C2", "C")]
+    form = sum((parts[k]() for k in combos[var % len(combos)][1:]), parts[combos[var % len(combos)][0]]())
+    return {"form": form, "exact_ok": True, "case": item["fm"]}
 
 
 def realise_c05(item):
